@@ -21,6 +21,7 @@ import (
 	"github.com/keep-network/keep-core/pkg/operator"
 	"github.com/keep-network/keep-core/pkg/protocol/group"
 	"github.com/keep-network/keep-core/pkg/tecdsa"
+	"github.com/keep-network/keep-core/pkg/tecdsa/signing"
 	"pgregory.net/rapid"
 )
 
@@ -190,6 +191,10 @@ type c35Case struct {
 	attempt  uint64
 	timeout  uint64
 	events   []c35Event
+	// self: the seat of the member that owns the done check (0 = none). Its
+	// own messages are not hand-delivered: they are sent through the real
+	// signalDone and come back over the channel like on the real network.
+	self group.MemberIndex
 	// an earlier attempt (number attempt-1) that ran on the SAME done-check
 	// object and timed out, as in the retry loop; nil = fresh object
 	prev *c35Prev
@@ -325,6 +330,13 @@ func c35GenCase(t *rapid.T, allowForeign bool, standIn bool, st *verifkit.Stats)
 			c.included = append(c.included, m)
 		}
 	}
+	switch rapid.IntRange(0, 5).Draw(t, "ownSeat") {
+	case 0: // the check belongs to nobody in particular
+	case 1: // any seat, possibly outside the attempt
+		c.self = all[rapid.IntRange(0, c.n-1).Draw(t, "ownSeatAny")]
+	default: // a member of the attempt
+		c.self = c.included[rapid.IntRange(0, len(c.included)-1).Draw(t, "ownSeatIncluded")]
+	}
 	c.message = int64(rapid.IntRange(1, 1000).Draw(t, "message"))
 	c.attempt = uint64(rapid.IntRange(1, 20).Draw(t, "attempt"))
 	c.timeout = uint64(rapid.IntRange(50, 5000).Draw(t, "timeoutBlock"))
@@ -338,7 +350,13 @@ func c35GenCase(t *rapid.T, allowForeign bool, standIn bool, st *verifkit.Stats)
 	}
 	invalid := func(m group.MemberIndex) c35Event {
 		e := valid(m, 1, "")
-		switch rapid.SampledFrom([]string{"message", "attempt-", "attempt+", "late", "very-late", "nosig", "wrongkey", "outsider", "other-payload"}).Draw(t, "defect") {
+		defects := []string{"message", "attempt-", "attempt+", "late", "very-late", "nosig", "wrongkey", "outsider", "other-payload"}
+		if m == c.self && rapid.IntRange(0, 3).Draw(t, "ownDefect") > 0 {
+			// what the member itself can get wrong: its own signing ended after
+			// the timeout, it signals for another attempt / message, no signature
+			defects = []string{"late", "late", "very-late", "attempt-", "attempt+", "message", "nosig"}
+		}
+		switch rapid.SampledFrom(defects).Draw(t, "defect") {
 		case "message":
 			e.message, e.tag = c.message+1, "wrong-message"
 		case "attempt-":
@@ -402,6 +420,9 @@ func c35GenCase(t *rapid.T, allowForeign bool, standIn bool, st *verifkit.Stats)
 	var missing group.MemberIndex
 	if plan == "incomplete" {
 		missing = c.included[rapid.IntRange(0, len(c.included)-1).Draw(t, "missingMember")]
+		if inc[c.self] && rapid.Bool().Draw(t, "ownConfirmationMissing") {
+			missing = c.self
+		}
 	}
 	odd := group.MemberIndex(0)
 	if plan == "mismatch" && len(c.included) > 1 {
@@ -486,7 +507,7 @@ func c35GenCase(t *rapid.T, allowForeign bool, standIn bool, st *verifkit.Stats)
 
 func (c c35Case) String() string {
 	var sb strings.Builder
-	fmt.Fprintf(&sb, "n=%d ops=%v included=%v msg=%d att=%d timeout=%d", c.n, c.seatOp, c.included, c.message, c.attempt, c.timeout)
+	fmt.Fprintf(&sb, "n=%d ops=%v included=%v own-seat=%d msg=%d att=%d timeout=%d", c.n, c.seatOp, c.included, c.self, c.message, c.attempt, c.timeout)
 	if c.prev != nil {
 		fmt.Fprintf(&sb, " after-attempt-%d(included=%v confirmed=%v sig%d silent-now=%v)", c.attempt-1, c.prev.included, c.prev.confirmers, c.prev.sig, c.prev.silentNow)
 	}
@@ -537,6 +558,21 @@ func c35Run(c c35Case, before int, chunk int, pauseEvery bool) c35Outcome {
 		}
 		return m
 	}
+	// own messages go through the real signalDone (and loop back over the
+	// channel with the member's key), everything else is handed to the receiver
+	ch.onSend = func(m net.TaggedMarshaler) {
+		if c.self != 0 {
+			ch.deliver(&c35Msg{pub: pool[c.seatOp[c.self-1]].pub, payload: m})
+		}
+	}
+	var sendCtx context.Context = context.Background()
+	send := func(e c35Event) {
+		if c.self != 0 && e.sender == c.self && !e.other && e.keyOf == c.seatOp[c.self-1] {
+			_ = dc.signalDone(sendCtx, e.sender, big.NewInt(e.message), e.attempt, &signing.Result{Signature: c35Sig(e.sig)}, e.endBlock)
+			return
+		}
+		ch.deliver(toMsg(e))
+	}
 	// a sentinel is a message of another payload type; when the receiver
 	// asks for its payload every earlier message has been fully processed.
 	sentinel := func() chan struct{} {
@@ -557,7 +593,7 @@ func c35Run(c c35Case, before int, chunk int, pauseEvery bool) c35Outcome {
 		prevCtx, cancelPrev := context.WithCancel(context.Background())
 		dc.listen(prevCtx, big.NewInt(c.message), c.attempt-1, c.timeout, append([]group.MemberIndex{}, c.prev.included...))
 		for _, m := range c.prev.confirmers {
-			ch.deliver(toMsg(c35Event{sender: m, keyOf: c.seatOp[m-1], message: c.message, attempt: c.attempt - 1, endBlock: c.timeout, sig: c.prev.sig}))
+			send(c35Event{sender: m, keyOf: c.seatOp[m-1], message: c.message, attempt: c.attempt - 1, endBlock: c.timeout, sig: c.prev.sig})
 		}
 		stopped := make(chan struct{})
 		ch.deliver(&c35Msg{pub: pool[11].pub, payload: &c35OtherPayload{}, onPayload: func() {
@@ -582,7 +618,7 @@ func c35Run(c c35Case, before int, chunk int, pauseEvery bool) c35Outcome {
 	dc.listen(root, big.NewInt(c.message), c.attempt, c.timeout, append([]group.MemberIndex{}, c.included...))
 
 	for _, e := range c.events[:before] {
-		ch.deliver(toMsg(e))
+		send(e)
 	}
 	select {
 	case <-sentinel():
@@ -629,7 +665,7 @@ func c35Run(c c35Case, before int, chunk int, pauseEvery bool) c35Outcome {
 	rest := c.events[before:]
 	for i := 0; i < len(rest) && got == nil; i += chunk {
 		for _, e := range rest[i:min(i+chunk, len(rest))] {
-			ch.deliver(toMsg(e))
+			send(e)
 		}
 		if pauseEvery && i+chunk < len(rest) {
 			if why := waitIterations(1); why != "" {
@@ -722,6 +758,22 @@ func c35Labels(c c35Case, exp c35Expect) []string {
 		out[0] = "expect:mismatch-error"
 	}
 	out = append(out, fmt.Sprintf("excluded-member-valid:%v", exp.foreign))
+	own := "none"
+	if c.self != 0 {
+		own = "outside-attempt"
+		for _, m := range c.included {
+			if m == c.self {
+				own = "in-attempt"
+			}
+		}
+		for _, e := range c.events {
+			if e.sender == c.self && e.keyOf == c.seatOp[c.self-1] && (e.tag == "end>timeout" || e.tag == "end>>timeout") {
+				out = append(out, "own-confirmation-after-timeout:true")
+				break
+			}
+		}
+	}
+	out = append(out, "own-seat:"+own)
 	out = append(out, fmt.Sprintf("object-reused-after-timed-out-attempt:%v", c.prev != nil))
 	if c.prev != nil {
 		out = append(out, fmt.Sprintf("earlier-confirmers-silent-now:%v", c.prev.silentNow))
